@@ -278,6 +278,13 @@ func check(args []string) {
 		os.WriteFile(file, []byte(fmt.Sprintf("obligation count %d below committed minimum %d\n", total, ps.MinObls)), 0o644)
 		vioLines = append(vioLines, fmt.Sprintf("VIOLATION property=%s replay=%s no-failing-input-found", *prop, file))
 	}
+	// the slowest discharged obligations (stability watch: anything near the budget is a candidate for a false alarm)
+	sorted := append([]vc.Result{}, results...)
+	sort.Slice(sorted, func(i, j int) bool { return sorted[i].V.Seconds > sorted[j].V.Seconds })
+	var slowest []map[string]interface{}
+	for i := 0; i < len(sorted) && i < 6; i++ {
+		slowest = append(slowest, map[string]interface{}{"obligation": oblID(sorted[i]), "seconds": sorted[i].V.Seconds, "solver": sorted[i].V.Solver, "verdict": sorted[i].V.Status})
+	}
 	var tb []string
 	for k := range trusted {
 		tb = append(tb, k)
@@ -298,6 +305,7 @@ func check(args []string) {
 			"by_back_end":       bySolver,
 			"solver_seconds":    solverTime,
 			"samples":           samples,
+			"slowest":           slowest,
 			"not_covered":       ps.NotCovered,
 			"known_findings":    knownLines,
 			"contract_files":    e.MirrorUsed,
